@@ -105,28 +105,8 @@ def check(run, F, tier):
 
     r4 = run.rule("C14-R4", "who-may-write maximum_packet_size_send / _recv", floor=2)
     for fld, allowed in sorted(LIMIT_WRITERS.items()):
-        writers = set()
-        for g in F.fns.values():
-            for b in g["blocks"]:
-                for st in b["stmts"]:
-                    places = []
-                    if st["k"] == "assign":
-                        places.append(st["lhs"])
-                        if st["rv"]["k"] == "ref" and st["rv"].get("mut"):
-                            places.append(st["rv"]["place"])
-                        if st["rv"]["k"] == "agg" and st["rv"].get("adt") == conn.GC_ADT:
-                            writers.add("new")
-                    for pl in places:
-                        hit = any(isinstance(el, dict) and el.get("n") == fld and el.get("a") == conn.GC_ADT for el in pl["p"])
-                        if g.get("kind") == "Closure" and not hit:
-                            # closure upvar by reference: `*self.<fld>` capture written through
-                            caps = [c["s"] for c in g.get("captures", [])]
-                            for el in pl["p"]:
-                                if isinstance(el, dict) and el.get("a") == "{closure}" and el["f"] < len(caps) and caps[el["f"]].endswith("." + fld):
-                                    hit = True
-                        if hit:
-                            writers.add(g["path"].split("::")[-1] if g.get("kind") != "Closure" else g["parent"].split("::")[-1])
-        extra = writers - allowed
+        extra, writers = conn.offending_writers(F, fld, allowed)
+        writers = {"new" if w == "new" else w for w in writers}
         if extra:
             r4.violation(fld, "%s is written by %s (allowed: %s)" % (fld, sorted(extra), sorted(allowed)))
         elif not (writers & (allowed - {"new", "notify_closed"})):
